@@ -946,6 +946,9 @@ class Message:
                 # parse decrypted payloads and remove Payload SK
                 message.iv, decrypted_data = payload_sk.decrypt(crypto)
                 message.encrypted_payloads = cls._parse_payloads(decrypted_data, payload_sk.next_payload_type)
+            else:
+                # nothing in this message is protected by the keys
+                message.crypto = None
 
         return message
 
